@@ -43,6 +43,8 @@ def run_script(udp, script, reqs, user_close=None, tcp_lost=None, seed=0, disc_d
             def ind_cb(c):
                 pi = c.data.property_info
                 ev.append({"ev": "ind_cb", "ot": int(pi.object_type), "inst": pi.object_instance, "pid": int(pi.property_id)})
+                if with_cb == "raise":        # the application's callback fails: the indication was handed over all the same, and is no answer
+                    raise RuntimeError("indication callback failed")
 
             # (without a callback an indication is dropped: the harness then writes the "handed to the callback" event itself, see `log`)
             if udp:
@@ -288,11 +290,13 @@ def plans(ck):
         for s_ in ((("ack", "ind", "ans"),), (("ind",), ("ack", "ans")), (("ack", "ind"), ("ack", "ind", "ans")), (("ind", "ind"),), (("ack", "ind", "late"),)):
             out.append(dict(udp=udp, script=[tuple(x) for x in s_] * 2, reqs=seq_reqs(3, 40.0), with_cb=False))
             out.append(dict(udp=udp, script=[tuple(x) for x in s_] * 2, reqs=[(0.0, 1, "read", 51), (0.0, 2, "read", 51), (0.5, 3, "write", 51)], with_cb=False))
+            out.append(dict(udp=udp, script=[tuple(x) for x in s_] * 2, reqs=seq_reqs(3, 40.0), with_cb="raise"))
+            out.append(dict(udp=udp, script=[tuple(x) for x in s_] * 2, reqs=[(0.0, 1, "read", 51), (0.0, 2, "read", 51), (0.5, 3, "write", 51)], with_cb="raise"))
         for _ in range(60 if ck.tier == "quick" else 1500):
             n = rnd.randrange(2, 6)
             out.append(dict(udp=udp, script=[rnd.choice(acts) for _ in range(n + 3)],
                             reqs=[(rnd.choice([0.0, 0.0, 0.3, 11.0, 45.0]), i + 1, rnd.choice(["read", "write"]), 51 + rnd.randrange(3)) for i in range(n)],
-                            user_close=rnd.choice([None, None, None, 0.0, 5.0, 12.0, 50.0]), with_cb=rnd.random() < 0.7))
+                            user_close=rnd.choice([None, None, None, 0.0, 5.0, 12.0, 50.0]), with_cb=rnd.choice([True, True, True, False, "raise"])))
     return out
 
 
